@@ -2,6 +2,7 @@ import FrappyProofs.Lemmas.ReqLoop
 import FrappyProofs.Lemmas.Codec
 import FrappyProofs.Lemmas.NoEol
 import FrappyProofs.Lemmas.Senders
+import FrappyProofs.Lemmas.Indep
 import FrappyModel.Generated.C07
 /-
 C07 — property theorems (nothing but property theorems and their non-vacuity examples).
@@ -26,6 +27,19 @@ def tables : Tables where
   errorClasses := Generated.C07.errorClasses
   asyncActions := Generated.C07.asyncActions
   stateActions := Generated.C07.stateActions
+
+/-- the constants of the dispatcher, generated from the working tree of the repository -/
+def dtables : DTables where
+  readRequest := Generated.C07.readRequest
+  writeRequest := Generated.C07.writeRequest
+  commandRequest := Generated.C07.commandRequest
+  pingRequest := Generated.C07.pingRequest
+  activateRequest := Generated.C07.activateRequest
+  deactivateRequest := Generated.C07.deactivateRequest
+  loggingRequest := Generated.C07.loggingRequest
+  protocolError := Generated.C07.protocolError
+  valueName := Generated.C07.valueName
+  targetName := Generated.C07.targetName
 
 /-- what the theorems need of the constant tables -/
 structure TableFacts (T : Tables) : Prop where
@@ -259,6 +273,76 @@ theorem error_class_is_secop (T : Tables) (L : Lib J) (d : Disp σ J) (facts : T
   · exact ⟨c, hf.2.2, hc⟩
 
 end loop
+
+/-! ## No input changes the answers given to other lines -/
+
+/-- the requests a module carries out are exactly the generated state actions, all of them have a
+reply action, and the dispatcher's own error class is a SECoP class -/
+theorem generated_dispatcher_facts :
+    DTableFacts tables dtables ∧ tables.stateActions = [dtables.readRequest, dtables.writeRequest, dtables.commandRequest]
+    ∧ (∀ a ∈ tables.stateActions, (tables.request2reply.lookup a).isSome = true)
+    ∧ dtables.protocolError ∈ tables.errorClasses
+    ∧ (∀ p ∈ tables.request2reply, p.1 ∈ Generated.C07.dispatcherHandlers) :=
+  ⟨⟨by decide, by decide, by decide⟩, by decide, by decide, by decide, by decide⟩
+
+section indep
+variable {J σ : Type}
+
+/-- **neutral_lines_removable** — "no input changes the answers given to other lines": take any byte
+stream in any segmentation, and the stream without some of its neutral request lines (anything but
+`read` / `change` / `do`: describe, ping, activate, …, blank lines, unknown actions, undecodable
+bytes) in any other segmentation.  With a dispatcher that does its part (`DispNeutral`), started in
+states that answer alike, the replies to the lines that stay are the same in both runs, and the
+dispatcher ends in states that answer alike. -/
+theorem neutral_lines_removable (T : Tables) (L : Lib J) (d : Disp σ J) (R : σ → σ → Prop) (hd : DispNeutral T d R)
+    (st st' : σ) (hst : R st st') (m : Marked) (hm : OnlyNeutralDropped T m)
+    (chunks chunks' : List Bytes) (tail tail' : Bytes)
+    (h : IsFraming chunks.flatten (allLines m) tail) (h' : IsFraming chunks'.flatten (keptLines m) tail') :
+    keptOf m ((replies (serve T L d [] st chunks).outs).map (·.msg))
+      = (replies (serve T L d [] st' chunks').outs).map (·.msg)
+    ∧ R (serve T L d [] st chunks).st (serve T L d [] st' chunks').st := by
+  obtain ⟨h1, _, h3⟩ := serve_eq_serveLines T L d chunks [] st
+  obtain ⟨h1', _, h3'⟩ := serve_eq_serveLines T L d chunks' [] st'
+  obtain ⟨hl, _⟩ := feed_lines_are_the_lines chunks _ _ h
+  obtain ⟨hl', _⟩ := feed_lines_are_the_lines chunks' _ _ h'
+  rw [h1, h1', h3, h3', hl, hl', replies_msg_eq_answers, replies_msg_eq_answers]
+  exact answers_neutral_removed T L d R hd m st st' hm hst
+
+/-- **other_connections_unaffected** — two connections served one after the other by one dispatcher
+(the dispatcher is shared by all connections of a node): whatever neutral lines are left out on the
+first connection (and on the second), every line that stays on the second connection gets the
+same reply -/
+theorem other_connections_unaffected (T : Tables) (L : Lib J) (d : Disp σ J) (R : σ → σ → Prop) (hd : DispNeutral T d R)
+    (st : σ) (mA mB : Marked) (hA : OnlyNeutralDropped T mA) (hB : OnlyNeutralDropped T mB)
+    (a a' b b' : List Bytes) (ta ta' tb tb' : Bytes)
+    (ha : IsFraming a.flatten (allLines mA) ta) (ha' : IsFraming a'.flatten (keptLines mA) ta')
+    (hb : IsFraming b.flatten (allLines mB) tb) (hb' : IsFraming b'.flatten (keptLines mB) tb') :
+    keptOf mB ((replies (serve T L d [] (serve T L d [] st a).st b).outs).map (·.msg))
+      = (replies (serve T L d [] (serve T L d [] st a').st b').outs).map (·.msg) := by
+  obtain ⟨_, hs⟩ := neutral_lines_removable T L d R hd st st (hd.refl st) mA hA a a' ta ta' ha ha'
+  exact (neutral_lines_removable T L d R hd _ _ hs mB hB b b' tb tb' hb hb').1
+
+variable {ν κ : Type}
+
+/-- **dispatcher_answers_independent** — the same for the model of `Dispatcher.handle_request` over any
+node (`NodeIf`: any modules, any descriptive data, any event bookkeeping) and any two subscription
+states: no hypothesis on the dispatcher is left -/
+theorem dispatcher_answers_independent (L : Lib J) (N : NodeIf ν κ J) (nu : ν) (k k' : κ)
+    (m : Marked) (hm : OnlyNeutralDropped tables m) (chunks chunks' : List Bytes) (tail tail' : Bytes)
+    (h : IsFraming chunks.flatten (allLines m) tail) (h' : IsFraming chunks'.flatten (keptLines m) tail') :
+    keptOf m ((replies (serve tables L (dispatch tables dtables N) [] (nu, k) chunks).outs).map (·.msg))
+      = (replies (serve tables L (dispatch tables dtables N) [] (nu, k') chunks').outs).map (·.msg) :=
+  (neutral_lines_removable tables L _ _ (dispatch_neutral tables dtables N generated_dispatcher_facts.1)
+    (nu, k) (nu, k') rfl m hm chunks chunks' tail tail' h h').1
+
+/-- **dispatcher_reply_fits** — the `FitsOk` half of `DispFits` is a property of the dispatcher model,
+not an assumption: every triple it returns carries the reply action of the request and its specifier -/
+theorem dispatcher_reply_fits (N : NodeIf ν κ J) (st : ν × κ) (t r : Triple J)
+    (h : (dispatch tables dtables N st t).1.res = .ok r) :
+    FitsOk tables ⟨t.action, t.spec.getD []⟩ r.action (r.spec.getD []) :=
+  dispatch_reply_fits tables dtables N st t r h
+
+end indep
 
 /-! ## Codec -/
 
@@ -629,5 +713,60 @@ example : judge tables [32, 114, 101, 97, 100, 32, 120, 32, 123, 10]
 example : judge tables [120, 10, 121, 10]
     [[101, 114, 114, 111, 114, 95, 120, 32, 32, 91, 34, 80, 114, 111, 116, 111, 99, 111, 108, 69, 114, 114, 111, 114, 34, 93, 10]]
     = .count 2 1 := by decide
+
+/-! ## Non-vacuity: a node, neutral lines left out, and what the monitor rejects -/
+
+/-- a node with one module `m` whose state is a number: `change` sets it to 1, `read` tells whether
+it is 0; the node description is `true`, that of `m` is `false`, nothing else exists -/
+def N0 : NodeIf Nat Unit Bool where
+  describe := fun s => if s = [] ∨ s = [46] then .ok true else if s = [109] then .ok false
+    else .secop [78, 111, 83, 117, 99, 104, 77, 111, 100, 117, 108, 101]
+  activateCheck := fun s => if s = [109] then none else some [78, 111, 83, 117, 99, 104, 77, 111, 100, 117, 108, 101]
+  logging := fun _ _ => .ok ()
+  truthy := fun j => j
+  pong := false
+  read := fun nu _ _ => (.ok (decide (nu = 0)), nu)
+  change := fun _ _ _ _ => (.ok true, 1)
+  exec := fun nu _ _ _ => (.exc, nu)
+  events := fun _ _ _ => []
+  book := fun k _ => k
+
+/-- `describe`, `read m`, `change m t`, `describe m`, a blank line, `describe x`, `read m`;
+the three `describe` lines and the blank line are left out -/
+def m0 : Marked :=
+  [([100, 101, 115, 99, 114, 105, 98, 101], false), ([114, 101, 97, 100, 32, 109], true), ([99, 104, 97, 110, 103, 101, 32, 109, 32, 116], true), ([100, 101, 115, 99, 114, 105, 98, 101, 32, 109], false),
+   ([], false), ([100, 101, 115, 99, 114, 105, 98, 101, 32, 120], false), ([114, 101, 97, 100, 32, 109], true)]
+
+example : OnlyNeutralDropped tables m0 := by decide
+
+/-- leaving out a `change` is not covered: it is not neutral -/
+example : ¬ OnlyNeutralDropped tables [([99, 104, 97, 110, 103, 101, 32, 109, 32, 116], false)] := by decide
+
+/-- the two runs of `dispatcher_answers_independent` on `m0`, evaluated: the three lines that stay get
+`reply m true`, `changed m true`, `reply m false` in both (the answer to `read m` does depend on the
+`change` before it, so the dispatcher state matters), and the `describe` lines are answered each by
+its own description -/
+example :
+    (replies (serve tables L0 (dispatch tables dtables N0) [] (0, ()) [(allLines m0).flatMap (· ++ [EOL])]).outs).map
+        (fun o => (o.msg.action, o.msg.data))
+      = [([100, 101, 115, 99, 114, 105, 98, 105, 110, 103], some true), ([114, 101, 112, 108, 121], some true), ([99, 104, 97, 110, 103, 101, 100], some true),
+         ([100, 101, 115, 99, 114, 105, 98, 105, 110, 103], some false), ([104, 101, 108, 112, 105, 110, 103], none), ([101, 114, 114, 111, 114, 95, 100, 101, 115, 99, 114, 105, 98, 101], some false),
+         ([114, 101, 112, 108, 121], some false)]
+    ∧ (replies (serve tables L0 (dispatch tables dtables N0) [] (0, ()) [(keptLines m0).flatMap (· ++ [EOL])]).outs).map
+        (fun o => (o.msg.action, o.msg.data))
+      = [([114, 101, 112, 108, 121], some true), ([99, 104, 97, 110, 103, 101, 100], some true), ([114, 101, 112, 108, 121], some false)] := by
+  decide
+
+/-- the monitor accepts answers that stay and rejects an answer that changes when an earlier
+`describe` is left out (what a dispatcher does that keeps the first description it built) -/
+example : judgeIndep tables [([100, 101, 115, 99, 114, 105, 98, 101], false), ([100, 101, 115, 99, 114, 105, 98, 101, 32, 109], true)]
+    [[100, 101, 115, 99, 114, 105, 98, 105, 110, 103, 32, 46, 32, 123, 34, 109, 111, 100, 117, 108, 101, 115, 34, 58, 32, 49, 125] ++ [10], [100, 101, 115, 99, 114, 105, 98, 105, 110, 103, 32, 109, 32, 123, 34, 97, 99, 99, 101, 115, 115, 105, 98, 108, 101, 115, 34, 58, 32, 50, 125] ++ [10]]
+    [[100, 101, 115, 99, 114, 105, 98, 105, 110, 103, 32, 109, 32, 123, 34, 97, 99, 99, 101, 115, 115, 105, 98, 108, 101, 115, 34, 58, 32, 50, 125] ++ [10]] = .ok := by decide
+
+example : judgeIndep tables [([100, 101, 115, 99, 114, 105, 98, 101], false), ([100, 101, 115, 99, 114, 105, 98, 101, 32, 109], true)]
+    [[100, 101, 115, 99, 114, 105, 98, 105, 110, 103, 32, 46, 32, 123, 34, 109, 111, 100, 117, 108, 101, 115, 34, 58, 32, 49, 125] ++ [10], [100, 101, 115, 99, 114, 105, 98, 105, 110, 103, 32, 109, 32, 123, 34, 109, 111, 100, 117, 108, 101, 115, 34, 58, 32, 49, 125] ++ [10]]
+    [[100, 101, 115, 99, 114, 105, 98, 105, 110, 103, 32, 109, 32, 123, 34, 97, 99, 99, 101, 115, 115, 105, 98, 108, 101, 115, 34, 58, 32, 50, 125] ++ [10]] = .changed 0 := by decide
+
+example : judgeIndep tables [([99, 104, 97, 110, 103, 101, 32, 109, 32, 49], false), ([114, 101, 97, 100, 32, 109], true)] [] [] = .notNeutral 0 := by decide
 
 end Frappy.Props.C07
